@@ -16,7 +16,11 @@ CONSTANTS B, P, Sizes, MaxAttempts,
           CfgStdout, CfgOutput,      \* step configuration: `stdout:` file? `output:` variable?
           FixDone,                   \* model the candidate fix "reset done in setup"
           FixDrain,                  \* model the candidate fix "drain the pipe concurrently"
-          FixHandover                \* teardown before the retry hand-over, none afterwards
+          FixHandover,               \* teardown before the retry hand-over, none afterwards
+          WriteCalls,                \* the executor calls Write on the writer (jq / http / mail / docker) instead of a child whose
+                                     \* output os/exec copies with ReadFrom: then EVERY writer is buffered, the stderr file's too
+          FixFlushAll                \* teardown flushes and closes the observed writer (F-12c: the stderr writer was left out;
+                                     \* FALSE = the writer is one teardown forgets, TRUE = the code after 048b30e)
 
 VARIABLES pc,        \* worker of the current attempt: setup | wire | emit | wait | drain | after | teardown | gone
           attempt,   \* 1..MaxAttempts
@@ -35,7 +39,7 @@ VARIABLES pc,        \* worker of the current attempt: setup | wire | emit | wai
 vars == <<pc, attempt, gen, buffered, onDisk, closedGen, doneFlag, toEmit, emitted, pipeFill, tailPending, lost, raced>>
 
 Mod(a, b) == a - b * (a \div b)
-Buffered == CfgStdout \/ CfgOutput      \* MultiWriter path; plain log goes through ReadFrom (unbuffered)
+Buffered == CfgStdout \/ CfgOutput \/ WriteCalls     \* MultiWriter path or Write calls; a child's plain log goes through ReadFrom (unbuffered)
 
 Init == /\ pc = "setup" /\ attempt = 1 /\ gen = 0 /\ buffered = 0
         /\ onDisk = [a \in 1..MaxAttempts |-> 0] /\ closedGen = {} /\ doneFlag = FALSE
@@ -75,7 +79,7 @@ ChildExit == /\ pc = "emit" /\ toEmit = 0                  \* cmd.Run returns; p
 
 DoTeardown(g) == IF doneFlag THEN UNCHANGED <<buffered, onDisk, closedGen, doneFlag>>
                  ELSE /\ doneFlag' = TRUE
-                      /\ onDisk' = IF g \in closedGen \/ g = 0 THEN onDisk ELSE [onDisk EXCEPT ![g] = @ + buffered]
+                      /\ onDisk' = IF g \in closedGen \/ g = 0 \/ ~FixFlushAll THEN onDisk ELSE [onDisk EXCEPT ![g] = @ + buffered]
                       /\ buffered' = 0
                       /\ closedGen' = closedGen \cup {g}
 
